@@ -223,8 +223,28 @@ func argsKey(m map[string]interface{}) string {
 	if len(m) == 0 {
 		return ""
 	}
-	b, _ := json.Marshal(m)
+	b, _ := json.Marshal(fixNilLists(m))
 	return string(b)
+}
+
+// fixNilLists: gqlparser coerces an empty list literal ([]) to a nil slice, which would be encoded as null;
+// an empty list and null are different argument values
+func fixNilLists(v interface{}) interface{} {
+	switch x := v.(type) {
+	case map[string]interface{}:
+		out := make(map[string]interface{}, len(x))
+		for k, vv := range x {
+			out[k] = fixNilLists(vv)
+		}
+		return out
+	case []interface{}:
+		out := make([]interface{}, len(x))
+		for i, vv := range x {
+			out[i] = fixNilLists(vv)
+		}
+		return out
+	}
+	return v
 }
 
 func (c *execCtx) resolve(obj *object, f *ast.Field, fd *ast.FieldDefinition) interface{} {
